@@ -132,6 +132,24 @@ impl Monitor for C13 {
         let cfg = ExprCfg { max_depth: 6, ill_typed: 150, null_leaf: 40, hostile: false, allow_now: true, readme_names: false, single_in: true };
         let ty = random_ty(rng);
         let depth = 2 + rng.below(5) as u32;
+        // long flat conditions (dozens of IN lists, comparisons and parenthesised operands in one chain) and deep nesting:
+        // what a generated filter over many codes looks like
+        if rng.chance(1, 40) {
+            let n = 20 + rng.below(110);
+            let op = *rng.pick(&["OR", "AND", "OR"]);
+            let term = |rng: &mut Rng| -> E {
+                match rng.below(5) {
+                    0 | 1 => E::In(rng.chance(1, 4), b(col(*rng.pick(&["g", "i"]))), (0..(2 + rng.below(3))).map(|_| int(rng.range(-3, 2000))).collect()),
+                    2 => E::In(false, b(col("k")), vec![text("a"), text("b")]),
+                    3 => bin(*rng.pick(&["=", "<", ">="]), bin("*", bin("+", col("i"), int(1)), int(2)), int(rng.range(0, 9))),
+                    _ => bin("=", call("least", vec![col("g"), int(rng.range(0, 9))]), col("i")),
+                }
+            };
+            let mut e = term(rng);
+            let right_nested = rng.chance(1, 3);
+            for _ in 1..n { let t = term(rng); e = if right_nested { bin(op, t, e) } else { bin(op, e, t) }; }
+            return json!({"kind": "random", "ast": e.to_json(), "paren_seed": rng.next_u64() | 1, "wide": n});
+        }
         let e = gen_expr(rng, &schema, &ty, depth, &cfg);
         json!({"kind": if rng.chance(1, 4) { "extra-parens" } else { "random" }, "ast": e.to_json(), "paren_seed": rng.next_u64() | 1})
     }
@@ -140,6 +158,7 @@ impl Monitor for C13 {
         let Some(ast) = E::from_json(&case["ast"]) else { return Verdict::Inconclusive("malformed-case".into()) };
         let kind = case["kind"].as_str().unwrap_or("");
         obs.hit(&format!("kind:{}", kind));
+        if let Some(n) = case["wide"].as_u64() { obs.hit(if n > 64 { "wide:over-64-terms" } else { "wide:up-to-64-terms" }); }
         let want = canon(&ast);
         let full = text_of(&ast, Paren::Full);
         if kind == "extra-parens" { EXTRA_PARENS.with(|c| c.set(case["paren_seed"].as_u64().unwrap_or(1))); }
